@@ -649,6 +649,16 @@ class HTTPResponse(BaseHTTPResponse):
         if not self._pool or not self._connection:
             return None
 
+        if (
+            self._original_response
+            and not self._original_response.isclosed()
+            and self.length_remaining != 0
+        ):
+            # The body has not been read to its end. Whatever is left of it
+            # would be taken for the response to the next request on this
+            # connection, so it must not be reused.
+            self._connection.close()
+
         self._pool._put_conn(self._connection)
         self._connection = None
 
